@@ -96,7 +96,7 @@ theorem featureOnView_spec (v : View) (h : UnitView v) (hl : 0 < len v) (minus :
   have hrel2 : (spans.map (fun sp => (sp.1 - segStart v, sp.2 - segStart v))).Pairwise (fun a b => a.1 ≤ b.1) := by
     rw [List.pairwise_map]
     exact hsorted.imp (fun hab => by simp only []; omega)
-  obtain ⟨f, hf, hrev, hreal⟩ := makeFeature_spec (len v) (decide (v.step < 0)) minus _ hl hrel1 hrel2
+  obtain ⟨f, hf, hrev, hreal⟩ := makeFeature_spec (len v) (decide (v.step < 0)) minus _ hl (fun sp h => Int.le_of_lt (hrel1 sp h)) hrel2
   have hlen := len_unit v h
   refine ⟨f, ?_, ?_⟩
   · unfold featureOnView
